@@ -260,7 +260,25 @@ def run_check(prop, fn, tier, seed):
     except (MachineryError, tlc.TlcError) as ex:
         print(f"MACHINERY-FAILURE property={prop}: {ex}", file=sys.stderr)
         return 2
-    except Exception:
+    except Exception as ex:
+        text = "".join(traceback.format_exception(type(ex), ex, ex.__traceback__))
         traceback.print_exc()
+        # Safety net: an exception RAISED INSIDE the code under test (innermost frame in the aldy source tree) on an input a
+        # check generated is a violation, not a machinery failure (the checks catch these themselves where they expect
+        # them; on the unchanged tree no exception escapes at all).  Worker exceptions arrive as text (RemoteTraceback).
+        files = [ln.strip() for ln in text.splitlines() if ln.strip().startswith('File "')]
+        src = os.path.realpath(os.environ.get("ALDY_SRC", "/repo"))
+        inner = files[-1] if files else ""
+        remote = [i for i, ln in enumerate(text.splitlines()) if "The above exception was the direct cause" in ln]
+        if remote:  # the frames of the worker come first
+            head = [ln.strip() for ln in text.splitlines()[: remote[0]] if ln.strip().startswith('File "')]
+            inner = head[-1] if head else inner
+        if inner.startswith(f'File "{src}/aldy/') and "/aldy/tests/" not in inner:
+            try:
+                ctx.violation("CodeUnderTestRaised", {"clause": "CodeUnderTestRaised", "exception": type(ex).__name__, "where": inner[:200]},
+                              {"traceback": text[-4000:]}, f"the code under test raised {type(ex).__name__}: {ex} at {inner}")
+                return ctx.finish()
+            except Exception:  # noqa: BLE001
+                traceback.print_exc()
         print(f"MACHINERY-FAILURE property={prop}: unexpected exception", file=sys.stderr)
         return 2
